@@ -1,4 +1,12 @@
-/-! Effect IR for C20 (spike): any-order semantics, certificate checker, soundness. core-only -/
+/-! Effect IR for C20: any-order semantics, certificate checker, soundness.  Core Lean only.
+
+A program is a *set* of statements over SSA-renamed variables (naturals):
+* `alloc x`      x is bound to a freshly allocated buffer,
+* `alias x ys`   x is bound to (a view of) the buffer of one of `ys`, or to a fresh copy,
+* `write x`      the buffer x is bound to is overwritten with arbitrary values.
+An execution is any finite sequence of statement instances, in any order, any number of times; this over-approximates
+every control flow of the Python function the program was generated from (`harness/translate/effects.py`).
+A certificate is a map `may : Var → List Var` ("x may share a buffer with these parameters"). -/
 namespace Eff
 
 abbrev Var := Nat
@@ -35,7 +43,21 @@ inductive Exec (p : Prog) : St → St → Prop
   | refl (s) : Exec p s s
   | step (s t u st) : st ∈ p.stmts → Exec p s t → Step st t u → Exec p s u
 
-/-- certificate: `may x` = parameters whose caller buffer `x` may share -/
+/-- the aliasing part of a certificate: parameters own themselves, `alias` statements propagate may-sets -/
+def checkAlias (p : Prog) (may : Var → List Var) : Bool :=
+  p.params.all (fun q => (may q).contains q) &&
+  p.stmts.all fun st => match st with
+    | .alloc _ => true
+    | .alias x ys => ys.all fun y => (may y).all fun q => (may x).contains q
+    | .write _ => true
+
+/-- parameters whose buffer some `write` may touch according to the certificate (the derived "mutates" summary) -/
+def writesTo (p : Prog) (may : Var → List Var) : List Var :=
+  p.stmts.flatMap fun st => match st with
+    | .write x => may x
+    | _ => []
+
+/-- certificate check used for pure functions: aliasing is consistent and no write can reach a parameter -/
 def checkCert (p : Prog) (may : Var → List Var) : Bool :=
   p.params.all (fun q => (may q).contains q) &&
   p.stmts.all fun st => match st with
@@ -49,79 +71,160 @@ structure Init (p : Prog) (s : St) : Prop where
 
 def IsParamBuf (p : Prog) (s0 : St) (l : Loc) : Prop := ∃ q ∈ p.params, s0.env q = some l
 
-def Inv (p : Prog) (may : Var → List Var) (s0 s : St) : Prop :=
+/-- invariant of the general soundness proof: a variable bound to a caller buffer `l` has a parameter in its may-set
+that is itself bound to `l` (so aliased parameters need no extra hypothesis) -/
+def InvG (p : Prog) (may : Var → List Var) (s0 s : St) : Prop :=
   s0.next ≤ s.next ∧
-  (∀ l, IsParamBuf p s0 l → l < s0.next) ∧
-  (∀ x l, s.env x = some l → IsParamBuf p s0 l → may x ≠ []) ∧
-  (∀ l, IsParamBuf p s0 l → s.heap l = s0.heap l)
+  (∀ x l, s.env x = some l → IsParamBuf p s0 l → ∃ q, q ∈ may x ∧ q ∈ p.params ∧ s0.env q = some l)
 
-theorem checkCert_sound (p : Prog) (may : Var → List Var) (hc : checkCert p may = true)
-    (s0 s : St) (hi : Init p s0) (hx : Exec p s0 s) :
-    ∀ q l, q ∈ p.params → s0.env q = some l → s.heap l = s0.heap l := by
-  have hc' := hc
-  simp only [checkCert, Bool.and_eq_true, List.all_eq_true] at hc'
-  obtain ⟨hpar, hst⟩ := hc'
-  suffices h : Inv p may s0 s from fun q l hq hl => h.2.2.2 l ⟨q, hq, hl⟩
-  have hlt : ∀ l, IsParamBuf p s0 l → l < s0.next := by
-    rintro l ⟨q, hq, hl⟩
-    obtain ⟨l', h1, h2⟩ := hi.bound q hq
-    rw [h1] at hl; cases hl; exact h2
+theorem paramBuf_lt {p : Prog} {s0 : St} (hi : Init p s0) : ∀ l, IsParamBuf p s0 l → l < s0.next := by
+  rintro l ⟨q, hq, hl⟩
+  obtain ⟨l', h1, h2⟩ := hi.bound q hq
+  rw [h1] at hl; cases hl; exact h2
+
+theorem mem_of_contains {xs : List Var} {q : Var} (h : xs.contains q = true) : q ∈ xs := by
+  simpa using h
+
+/-- the may-sets are sound: whatever a variable is bound to after any execution, if it is a caller buffer then the
+certificate lists a parameter bound to that buffer -/
+theorem may_sound (p : Prog) (may : Var → List Var) (hc : checkAlias p may = true)
+    (s0 s : St) (hi : Init p s0) (hx : Exec p s0 s) : InvG p may s0 s := by
+  simp only [checkAlias, Bool.and_eq_true, List.all_eq_true] at hc
+  obtain ⟨hpar, hst⟩ := hc
+  have hlt := paramBuf_lt hi
   induction hx with
   | refl =>
-    refine ⟨Nat.le_refl _, hlt, ?_, fun _ _ => rfl⟩
+    refine ⟨Nat.le_refl _, ?_⟩
     intro x l hxl _
     by_cases hxp : x ∈ p.params
-    · have := hpar x hxp
-      intro h; rw [h] at this; simp at this
+    · exact ⟨x, mem_of_contains (hpar x hxp), hxp, hxl⟩
     · rw [hi.unbound x hxp] at hxl; cases hxl
   | step t u st hmem _ hstep ih =>
-    obtain ⟨h1, h2, h3, h4⟩ := ih
+    obtain ⟨h1, h3⟩ := ih
     have hs := hst st hmem
     cases hstep with
     | alloc x =>
-      refine ⟨Nat.le_succ_of_le h1, h2, ?_, h4⟩
+      refine ⟨Nat.le_succ_of_le h1, ?_⟩
       intro y l hyl hpb
       simp only [setEnv] at hyl
       split at hyl
-      · cases hyl; have := h2 _ hpb; exact absurd h1 (Nat.not_le.mpr this)
+      · cases hyl; exact absurd h1 (Nat.not_le.mpr (hlt _ hpb))
       · exact h3 y l hyl hpb
     | aliasView x ys y l hy hyl =>
-      refine ⟨h1, h2, ?_, h4⟩
+      refine ⟨h1, ?_⟩
       intro z l' hzl hpb
       simp only [setEnv] at hzl
       split at hzl
       · rename_i hzx; subst hzx
         have hll : l = l' := by injection hzl
         subst hll
-        have hne := h3 y l hyl hpb
+        obtain ⟨q, hq, hqp, hql⟩ := h3 y l hyl hpb
         simp only [List.all_eq_true] at hs
-        have hsub := hs y hy
-        intro hx0
-        cases hm : may y with
-        | nil => exact hne hm
-        | cons a as =>
-          have := hsub a (by rw [hm]; simp)
-          rw [hx0] at this; simp at this
+        exact ⟨q, mem_of_contains (hs y hy q hq), hqp, hql⟩
       · exact h3 z l' hzl hpb
     | aliasCopy x ys =>
-      refine ⟨Nat.le_succ_of_le h1, h2, ?_, h4⟩
+      refine ⟨Nat.le_succ_of_le h1, ?_⟩
       intro y l hyl hpb
       simp only [setEnv] at hyl
       split at hyl
-      · cases hyl; have := h2 _ hpb; exact absurd h1 (Nat.not_le.mpr this)
+      · cases hyl; exact absurd h1 (Nat.not_le.mpr (hlt _ hpb))
       · exact h3 y l hyl hpb
-    | writeHit x l v hxl =>
-      refine ⟨h1, h2, h3, ?_⟩
-      intro l' hpb
-      have hne : l' ≠ l := by
-        intro h; subst h
-        have := h3 x l' hxl hpb
-        simp only [List.isEmpty_iff] at hs
-        exact this hs
-      simp [hne, h4 l' hpb]
-    | writeMiss x hxn => exact ⟨h1, h2, h3, h4⟩
+    | writeHit x l v hxl => exact ⟨h1, h3⟩
+    | writeMiss x hxn => exact ⟨h1, h3⟩
 
-/-- example program: `mask = np.copy(mask); mask /= ...` is accepted, `cov /= ...` on a parameter is rejected -/
+/-- General soundness: a caller buffer that is not the buffer of a parameter listed in `writesTo` keeps its contents
+along every execution. -/
+theorem writes_sound (p : Prog) (may : Var → List Var) (hc : checkAlias p may = true)
+    (s0 s : St) (hi : Init p s0) (hx : Exec p s0 s) :
+    ∀ l, IsParamBuf p s0 l → (∀ q ∈ writesTo p may, s0.env q ≠ some l) → s.heap l = s0.heap l := by
+  induction hx with
+  | refl => intros; rfl
+  | step t u st hmem hpre hstep ih =>
+    intro l hpb hnot
+    have hI := may_sound p may hc s0 t hi hpre
+    cases hstep with
+    | alloc x => exact ih l hpb hnot
+    | aliasView x ys y l' hy hyl => exact ih l hpb hnot
+    | aliasCopy x ys => exact ih l hpb hnot
+    | writeMiss x hxn => exact ih l hpb hnot
+    | writeHit x l' v hxl =>
+      have hne : l ≠ l' := by
+        intro h; subst h
+        obtain ⟨q, hq, _, hql⟩ := hI.2 x l hxl hpb
+        refine hnot q ?_ hql
+        simp only [writesTo, List.mem_flatMap]
+        exact ⟨.write x, hmem, hq⟩
+      simp [hne, ih l hpb hnot]
+
+theorem checkAlias_of_checkCert {p : Prog} {may : Var → List Var} (hc : checkCert p may = true) :
+    checkAlias p may = true := by
+  simp only [checkCert, Bool.and_eq_true, List.all_eq_true] at hc
+  simp only [checkAlias, Bool.and_eq_true, List.all_eq_true]
+  refine ⟨hc.1, fun st hst => ?_⟩
+  have := hc.2 st hst
+  cases st with
+  | alloc x => rfl
+  | alias x ys => exact this
+  | write x => rfl
+
+theorem writesTo_nil_of_checkCert {p : Prog} {may : Var → List Var} (hc : checkCert p may = true) :
+    ∀ q, q ∉ writesTo p may := by
+  simp only [checkCert, Bool.and_eq_true, List.all_eq_true] at hc
+  intro q hq
+  simp only [writesTo, List.mem_flatMap] at hq
+  obtain ⟨st, hst, hq⟩ := hq
+  have := hc.2 st hst
+  cases st with
+  | alloc x => simp at hq
+  | alias x ys => simp at hq
+  | write x =>
+    simp only [List.isEmpty_iff] at this
+    have hq' : q ∈ may x := hq
+    rw [this] at hq'; simp at hq'
+
+/-- Soundness of the certificate checker: if `checkCert p may` holds then NO execution of `p` (any order, any number of
+statement instances) changes the contents of a buffer passed in by the caller. -/
+theorem checkCert_sound (p : Prog) (may : Var → List Var) (hc : checkCert p may = true)
+    (s0 s : St) (hi : Init p s0) (hx : Exec p s0 s) :
+    ∀ q l, q ∈ p.params → s0.env q = some l → s.heap l = s0.heap l := by
+  intro q l hq hl
+  exact writes_sound p may (checkAlias_of_checkCert hc) s0 s hi hx l ⟨q, hq, hl⟩
+    (fun q' hq' => absurd hq' (writesTo_nil_of_checkCert hc q'))
+
+/-! ### Functions, certificates as tables, callee summaries -/
+
+/-- may-sets as an association table (what the translator emits) -/
+def mayOf (tab : List (Var × List Var)) (x : Var) : List Var :=
+  match tab.lookup x with
+  | some l => l
+  | none => []
+
+/-- summary of a callee as used at call sites: parameters it may write to, parameters its result may alias -/
+structure Summary where
+  mutates : List Var
+  returns : List Var
+deriving DecidableEq, Repr
+
+structure Fn where
+  name : String
+  prog : Prog
+  rets : List Var                       -- returned variables
+  mayTab : List (Var × List Var)
+  summary : Summary                     -- the summary the translator used for calls of this function
+
+def Fn.may (f : Fn) : Var → List Var := mayOf f.mayTab
+
+def subset (xs ys : List Var) : Bool := xs.all fun x => ys.contains x
+
+/-- the summary derived from the function's own certificate -/
+def Fn.derived (f : Fn) : Summary := ⟨writesTo f.prog f.may, f.rets.flatMap f.may⟩
+
+/-- the summary used by callers over-approximates the derived one, and the aliasing certificate checks -/
+def Fn.summaryOk (f : Fn) : Bool :=
+  checkAlias f.prog f.may && subset f.derived.mutates f.summary.mutates && subset f.derived.returns f.summary.returns
+
+/-- example programs: `mask = np.copy(mask); mask /= ...` is accepted, `cov /= ...` on a parameter is rejected -/
 example : checkCert ⟨[0], [.alias 1 [0], .alloc 2, .write 2]⟩ (fun x => if x = 0 ∨ x = 1 then [0] else []) = true := by decide
 example : checkCert ⟨[0], [.write 0]⟩ (fun x => if x = 0 then [0] else []) = false := by decide
+example : checkCert ⟨[0], [.alias 1 [0], .write 1]⟩ (mayOf [(0, [0]), (1, [0])]) = false := by decide
 end Eff
